@@ -332,7 +332,7 @@ class Expr:
 
     @property
     def struct(self):
-        raise ModelGap("struct namespace (JSON encoding of multi-column failure cases)")
+        return _StructNS(self)
 
 
 def _cmp_terms(v, vnan, o, onan, op):
@@ -400,6 +400,28 @@ def _as_col(value, fr, like):
     if value is None:
         return Col([_ZERO[like.kind]] * n, [T] * n, like.dtype)
     return Col([_lit_term(value, like.kind)] * n, [F] * n, like.dtype)
+
+
+class _StructNS:
+    """only what the multi-column failure-case report needs: the JSON text of a row (text is outside the claim)"""
+
+    def __init__(self, e):
+        self.e = e
+
+    def json_encode(self):
+        def g(c, fr):
+            if c.rendered != "struct":
+                raise ModelGap("struct namespace on a non-struct column")
+            return c
+        return self.e._map(g)
+
+
+class _Rows(list):
+    """DataFrame.rows(named=True): only ever formatted into messages or turned back into a struct Series"""
+
+    def __init__(self, frame):
+        super().__init__(["<?rows>"])
+        self.frame = frame
 
 
 class _StrNS:
@@ -548,6 +570,13 @@ class Series:
 
     def any(self):
         return bool(sb(zor(z3.And(p, z3.Not(n), v) for v, n, p in zip(self.c.vals, self.c.nulls, self.present))))
+
+    def __invert__(self):
+        if self.c.kind != "bool":
+            raise real_pl.exceptions.InvalidOperationError("~ on a non-boolean Series")
+        return Series(self.name, BOOL([z3.Not(v) for v in self.c.vals], self.c.nulls), self.present)
+
+    not_ = __invert__
 
     def all(self):
         return bool(sb(zand(z3.Implies(z3.And(p, z3.Not(n)), v) for v, n, p in zip(self.c.vals, self.c.nulls, self.present))))
@@ -795,10 +824,15 @@ class _Frame:
         return self._mk(self.cols, present=out[::-1])
 
     def unique(self, subset=None, keep="any", maintain_order=False):
-        if subset is not None:
-            raise ModelGap("unique(subset)")
         n = len(self.present)
-        cols = list(self.cols.values())
+        if subset is None:
+            cols = list(self.cols.values())
+        else:
+            names = [subset] if isinstance(subset, str) else list(subset)
+            for k in names:
+                if k not in self.cols:
+                    raise real_pl.exceptions.ColumnNotFoundError(k)
+            cols = [self.cols[k] for k in names]
         eq = lambda i, j: zand(_eqcell(c, i, j) for c in cols)  # noqa: E731
         newp = [z3.And(self.present[i], z3.Not(zor(z3.And(self.present[j], eq(i, j)) for j in range(i)))) for i in range(n)]
         return self._mk(self.cols, present=newp)  # which duplicate survives / row order is unspecified in polars
@@ -900,10 +934,20 @@ class DataFrame(_Frame):
         return self[k]
 
     def rows(self, named=False):
-        return ["<?rows>"]
+        return _Rows(self)
 
     def sample(self, n=None, *, fraction=None, with_replacement=False, shuffle=False, seed=None):
-        raise ModelGap("DataFrame.sample")
+        """nondeterministic stub (contract): any n distinct present rows; the same (n, seed) picks the same rows within a path"""
+        if n is None or fraction is not None or with_replacement:
+            raise ModelGap("DataFrame.sample(fraction/with_replacement)")
+        from symx import PathAbort
+
+        picks = [z3.Bool(f"plsample!{seed}!{i}") for i in range(len(self.present))]
+        try:
+            eng().constrain(z3.Sum([z3.If(z3.And(p, k), 1, 0) for p, k in zip(self.present, picks)]) == lift_num(n))
+        except PathAbort:
+            raise real_pl.exceptions.ShapeError("cannot take a larger sample than the total population when `with_replacement=false`")
+        return self._mk(self.cols, present=[z3.And(p, k) for p, k in zip(self.present, picks)])
 
     # no __len__: the height is symbolic.  pandera's only use is ErrorHandler's failure_cases_count (stored, never read), which
     # falls back to 1 on TypeError.
@@ -977,6 +1021,11 @@ class PlProxy:
 
 
 def _series_ctor(*a, **kw):
+    vals = a[-1] if a else kw.get("values")
+    if isinstance(vals, _Rows):  # a struct column made of the rows of a frame
+        fr = vals.frame
+        n = len(fr.present)
+        return Series("", Col([z3.StringVal("<struct>")] * n, [F] * n, real_pl.String, rendered="struct"), fr.present)
     raise ModelGap("pl.Series constructor")
 
 
